@@ -85,6 +85,27 @@ CHECKS = {
              "lazy nested generators are runtime behaviour observed through the correspondence only.",
         technique="Lean 4 proof (sortedness + groupBy lemmas) + differential correspondence",
     ),
+    "C13": dict(
+        category="proof",
+        text="Lean model O2P.Jq of what the compiled field mapping does (prefix trie of array levels -> nested loops in "
+             "depth-first order; plain leaves and key/value look-ups; // priority; null-strict _ join; array flattening; "
+             "OTelEvent validation; the data source as flatMap over documents), including the front half of the compiler "
+             "(path splitting, variable allocation). Theorems: one record per combination of loop values (extract_length); "
+             "for a chain of nested arrays the loops enumerate exactly the documented flattening, one environment per "
+             "innermost element with its ancestors (bindings_chain, envs_length); an outer-level value is repeated "
+             "unchanged in every inner record (evalLeaf_outer, evalField_outer); an absent key reads null and a null part "
+             "makes the joined value null; skipping is a filterMap so an invalid record or document never affects "
+             "another, and per-line mode is a flatMap over lines (source_append, skip_independent, source_invalid_doc). "
+             "Tie: the model's records equal those of the real compiled jq program, and its events equal JSONDataSource's "
+             "from real files in both modes, on seeded OTel-shaped documents x mappings of the documented forms; a third "
+             "independent flattening is the oracle.",
+        ref="DESIGN.md §5 C13",
+        note="Trusted: Lean kernel; axioms propext, Quot.sound, Classical.choice. The jq engine is not modelled (no Lean "
+             "evaluator of jq programs): agreement of the emitted program with the model is differential, not a theorem. "
+             "pydantic coercion modelled for the generated value kinds; floats excluded.",
+        technique="Lean 4 proof (flattening/loop algebra on the extraction model) + differential correspondence against the "
+                  "real jq program and JSONDataSource + independent flattening oracle",
+    ),
     "C15": dict(
         category="proof",
         text="Lean theorems about runOnce (one run of otel_to_pv in a new process on the store an earlier run left) for "
